@@ -174,7 +174,7 @@ func (g *G) genDecls() {
 			m.Ty = TFloat
 			m.Buckets = pick(g, "buckets", [][]float64{{1, 2, 4}, {0.5, 10}, {0, 1, 100}})
 			if g.F.SmallBuckets && g.chance("smallbuckets", 40) {
-				m.Buckets = pick(g, "sbuckets", [][]float64{{0.0000001, 0.5}, {0.00000025, 0.0000005, 1}, {1e-9, 1e9}, {0.001, 0.002}})
+				m.Buckets = pick(g, "sbuckets", [][]float64{{0.0000001, 0.5}, {0.00000025, 0.0000005, 1}, {1e-9, 1e9}, {0.001, 0.002}, {1, 1e10, 1e20}})
 				g.class("small-bucket-boundaries")
 			}
 		case g.F.Floats && g.chance("float", 30):
